@@ -391,9 +391,7 @@ def libChecks (s : VSchema) (r : Raw1) : List (String × Bool) :=
   [ ("crates-wellformed", CratesV1.WfRaw r.cr),
     ("foreign-keys-clean", fkViolationsAll r == []),
     ("metadata-of-live-tracks", r.metaStr.all fun m => live.contains m.1),
-    ("metadata-key-unique", CratesV1.nodupB r.metaStr),
     ("metadatainteger-of-live-tracks", r.metaInt.all fun m => live.contains m.1),
-    ("metadatainteger-key-unique", CratesV1.nodupB r.metaInt),
     ("perfdata-mirrors-music", r.perf.all fun i => live.contains i),
     ("perfdata-key-unique", CratesV1.nodupB r.perf),
     ("track-art-rows-match", r.trackArt.map (·.1) == r.cr.track.map (·.id)),
